@@ -6,6 +6,7 @@ import gevent
 from hypothesis import strategies as st
 
 from vf.evidence import Outcome
+from vf.boot import loop
 from vf.world import World, Violation, HarnessError, settle, advance
 from vf.gen import sized_list, weighted
 from vf.peers.fakezk import FakeKazoo
@@ -20,7 +21,7 @@ ID = 'C19'
 LEVEL = 'exploration'
 RULE = ('Hypothesis-generated histories (<= 50 ops) over a znode tree under /svc with member names from a pool of 6 (names are '
         'reused) plus non-member children: create_member / delete_member / delete_parent (children first, events back to '
-        'back) / create_parent / callback_raises(next k consumer callbacks raise) / callback_blocks(next k consumer callbacks take 8 ms) / advance(0-20 ms), with per-call latencies '
+        'back) / create_parent / callback_raises(next k consumer callbacks raise) / callback_blocks(next k consumer callbacks take 8 ms, or 12 s) / advance(0-20 ms), with per-call latencies '
         '(0-3 ms) inside get / exists / get_children so that members vanish between listing and reading. The real ServerSet '
         'and the real kazoo DataWatch / ChildrenWatch recipes run on an in-process fake Kazoo client. Consumer 1 records '
         'on_join / on_leave; consumer 2 is a real HeapBalancerSink behind ZooKeeperServerSetProvider. At quiescence the '
@@ -60,7 +61,7 @@ def strategy(tier):
       (2, st.just(['create_parent'])),
       (1, st.tuples(st.just('other'), st.booleans()).map(list)),
       (2, st.tuples(st.just('raises'), st.integers(1, 3)).map(list)),
-      (2, st.tuples(st.just('slow'), st.integers(1, 3)).map(list)),
+      (2, st.tuples(st.just('slow'), st.integers(1, 3), st.sampled_from([8, 8, 8, 12000])).map(list)),
       (4, st.tuples(st.just('advance'), st.sampled_from([0, 1, 2, 5, 20])).map(list)),
       (2, st.just(['check'])),
       # a server re-registers under a new znode name with the same endpoint, both events in one listing
@@ -104,7 +105,8 @@ def execute(plan):
         zk.z_create('%s/%s' % (PATH, NAMES[i]), data(i))
     log = []
     raise_next = [0]
-    slow_next = [0]
+    slow_next = [0, 0.008]
+    slow_until = [0.0]
 
     def cb(kind):
       def f(member):
@@ -112,8 +114,9 @@ def execute(plan):
         if slow_next[0] > 0:
           # a consumer that blocks in its callback for a while (the balancer's own callbacks wait for its start-up)
           slow_next[0] -= 1
-          flags.add('callback_blocked')
-          gevent.sleep(0.008)
+          flags.add('callback_blocked' if slow_next[1] < 1 else 'callback_blocked_for_seconds')
+          slow_until[0] = max(slow_until[0], loop.now() + slow_next[1])
+          gevent.sleep(slow_next[1])
         if raise_next[0] > 0:
           raise_next[0] -= 1
           flags.add('callback_raised')
@@ -170,6 +173,10 @@ def execute(plan):
 
     def check(step, op):
       advance(0.06)
+      for _ in range(6):
+        if loop.now() >= slow_until[0]:
+          break
+        advance(slow_until[0] - loop.now() + 0.05)      # a consumer callback is still blocking
       for _ in range(40):
         # quiescence: every watch event has been delivered (one handler greenlet serves all watchers, also those of
         # server sets that were stopped meanwhile, and each of its reads takes the plan's latency)
@@ -325,6 +332,7 @@ def execute(plan):
         raise_next[0] = op[1]
       elif k == 'slow':
         slow_next[0] = op[1]
+        slow_next[1] = (op[2] if len(op) > 2 else 8) / 1000.0
       elif k == 'advance':
         advance(op[1] / 1000.0)
       elif k == 'check':
